@@ -26,6 +26,8 @@ GRAMMARS = [
     {"<start>": ["<expr>"], "<expr>": ["<expr>+<term>", "<term>"], "<term>": ["(<expr>)", "<digit>"], "<digit>": ["1", "2"]},
     # terminals that look almost like nonterminals
     {"<start>": ["<p>"], "<p>": ["<t><p>", "<t>"], "<t>": ["<br />", "a<b", "<i>"], "<i>": ["i", "> <"]},
+    # the start symbol occurs on a right-hand side
+    {"<start>": ["(<start>)", "<k><start>", "x"], "<k>": ["k", "-"]},
 ]
 G = GRAMMARS[GI]
 CAN = vlib.canonical_grammar(G)
